@@ -407,6 +407,7 @@ func (w *genWorld) check(res roundTripResult, v1, v2 coreView, directed bool) {
 func (w *genWorld) randomOps(n int) {
 	c := w.c
 	free := map[[2]int]int64{}          // deposited and not delegated, per (staker, asset)
+	back := map[[2]int]int64{}          // being undelegated: withdrawable again once every pending undelegation has completed
 	deleg := map[[3]int]int64{}         // delegated, per (staker, operator, asset)
 	fav := w.rng.Intn(len(c.Operators)) // the operator most delegations of the second LST go to
 	for k, v := range w.genFree {       // multi-asset world: what the stakers hold (withdrawable) at genesis
@@ -432,7 +433,21 @@ func (w *genWorld) randomOps(n int) {
 		w.asset = ai
 		// whole amounts (all that is free / all that is delegated) as often as partial ones: zero remainders
 		whole := w.rng.Chance(1, 3)
-		switch w.rng.Pick(3, 4, 4, 1, 4, 1, 2, 2, 1, 1, 1, 2, 1) {
+		switch w.rng.Pick(3, 4, 4, 1, 4, 1, 2, 2, 1, 1, 1, 2, 1, 2) {
+		case 13:
+			// the chain runs on until every pending undelegation has completed (10 blocks + the x/dogfood hold): pools that
+			// everybody has left become rows of zeros, what was undelegated can be delegated again or withdrawn
+			_, left := w.matureAll()
+			if c.Halted != "" {
+				return
+			}
+			if left == 0 {
+				for k, v := range back {
+					free[k] += v
+					delete(back, k)
+				}
+			}
+			w.env.Outcome(fmt.Sprintf("op:mature:all-completed=%v", left == 0))
 		case 12:
 			// a genesis operator undelegates (a part of / all of) the stake it delegated to itself at genesis
 			g := w.rng.Intn(c.Cfg.NOperators)
@@ -556,6 +571,7 @@ func (w *genWorld) randomOps(n int) {
 			err := w.delegate(k[0], k[1], amt, true)
 			if err == nil {
 				deleg[k] -= amt
+				back[[2]int{k[0], k[2]}] += amt
 			}
 			w.env.Outcome(fmt.Sprintf("op:undelegate:asset=%d:whole=%v:%s", ai, deleg[k] == 0, genErrClass(err)))
 		case 3:
@@ -603,9 +619,11 @@ func (w *genWorld) runOne(nOps int, directed bool, cont int) {
 	w.emitOperator(o1)
 	p1 := viewParams(c, committedCtx(c))
 	w.emitParams(p1)
+	d1 := viewDelegs(c, committedCtx(c))
+	w.emitDelegs(d1)
 	res := w.roundTripWith(cont, directed)
 	var v2 coreView
-	obs, aobs, oobs, pobs := "import-failed", "import-failed", "import-failed", "import-failed"
+	obs, aobs, oobs, pobs, lobs := "import-failed", "import-failed", "import-failed", "import-failed", "import-failed"
 	if res.c2 != nil {
 		v2 = res.post
 		obs = v2.obs()
@@ -613,15 +631,22 @@ func (w *genWorld) runOne(nOps int, directed bool, cont int) {
 		aobs = fmt.Sprintf("validate=%v init=ok %s", res.validateErr["assets"] == "", res.postAssets.obs())
 		oobs = fmt.Sprintf("validate=%v %s", res.validateErr["operator"] == "", res.postOp.obs())
 		pobs = "init=ok " + res.postParams.obs()
+		lobs = "init=ok " + res.postPools
 	}
 	w.op("gen.roundtrip", obs)
 	w.op("gen.assets", aobs)
 	w.op("gen.operator", oobs)
 	w.op("gen.params", pobs)
+	w.op("gen.pools", lobs)
 	w.check(res, v1, v2, directed)
+	if res.c2 != nil {
+		w.checkQueries(res.queryDiff)
+	}
 	w.env.Report.Histories++
-	if len(v1.unds) > 0 || len(v1.rev) > len(v1.cur) {
-		w.env.DistinctKey(fmt.Sprintf("u%d-q%d-p%d-%x", len(v1.unds), len(v1.qs), len(v1.prev), sha8([]byte(v1.obs()))))
+	nEmptied, nZeroRows := emptiedPools(a1, d1)
+	w.env.Outcome(fmt.Sprintf("state:emptied-pools=%d,zero-share-delegations=%d", min(nEmptied, 3), min(nZeroRows, 3)))
+	if len(v1.unds) > 0 || len(v1.rev) > len(v1.cur) || nEmptied > 0 {
+		w.env.DistinctKey(fmt.Sprintf("u%d-q%d-p%d-e%d-%x", len(v1.unds), len(v1.qs), len(v1.prev), nEmptied, sha8([]byte(v1.obs()+a1.obs()))))
 	}
 	w.env.Outcome(fmt.Sprintf("state:unds=%d,prev=%d", min(len(v1.unds), 3), min(len(v1.rev)-len(v1.cur), 2)))
 }
